@@ -1,3 +1,4 @@
+import MocModel.SqlTx
 import MocModel.Drv.Core
 import MocModel.Spec.Sqlite
 open Lean Moc.Wire
@@ -27,6 +28,20 @@ def step (st : St) (j : Json) : Except String (St × Drv.Out) := do
     o := o.tag (if failed then "op.batch.failed" else if fault then "op.batch.fault-not-reached" else "op.batch")
     if failed && !fault then
       o := o.diff s!"a batch of {evs.length} events failed without an injected fault: {((j.getObjValD "out").getObjValD "msg").compress}"
+    -- the statement-level model (SqlTx.lean): the same fault plan, call by call
+    let natOf (x : Json) : Option Nat := match x with | .num n => if n.exponent == 0 && n.mantissa ≥ 0 then some n.mantissa.toNat else none | _ => none
+    let failAt := (natOf (j.getObjValD "fault")).getD 0
+    match natOf ((j.getObjValD "out").getObjValD "points") with
+    | none => pure ()
+    | some points =>
+      let calls := st.db.calls evs
+      let r := st.db.insertEventsTx (fun k => failAt != 0 && k == failAt) evs
+      let expPoints := if failAt != 0 && failAt ≤ calls then failAt else calls
+      if r.ok == failed then
+        o := o.diff s!"insertEvents with the driver call #{failAt} failing (of {calls}): implementation reports {if failed then "an error" else "success"}, the statement-level model {if r.ok then "success" else "an error"}"
+      if points != expPoints then
+        o := o.diff s!"insertEvents issued {points} driver calls, the statement-level model issues {expPoints} (fault at #{failAt}, {calls} calls without fault)"
+      if failAt != 0 && failAt ≤ calls then o := o.tag (if failAt ≤ 6 then "fault.prologue" else if failAt == calls then "fault.commit" else "fault.statement")
     if failed then
       return ({ st with db := st.db.insertBatchFailing evs }, o)
     for e in evs do
